@@ -123,6 +123,10 @@ class Overlay:
             elif d in ('loop', 'closure', 'beforeloop', 'loopentry', 'afterinit', 'loopend', 'closurecall', 'afterloop'):
                 parts = arg.split()
                 cur_sec = (d, int(parts[0]))
+                if d == 'closurecall' and len(parts) >= 3 and parts[1] == 'via':
+                    # `//@ closurecall N via FN`: the call becomes `FN(__iN, <closure>)` (FN: a verified
+                    # wrapper in the overlay whose body is the method call itself)
+                    self.fns[cur_fn].setdefault('closurecall_via', {})[int(parts[0])] = parts[2]
                 if d == 'loop' and 'optional' in parts[1:]:
                     # `//@ loop N optional`: the N-th loop may be absent (a loop that only a
                     # candidate repair adds); its absence is not an extraction failure
@@ -612,7 +616,7 @@ class FnRewriter:
                     j = end
                     continue
             # R15: `RECV.m(|..| B)` with a `//@ closurecall n` section  ==>
-            #      `{ let __cN = |..| B; let __rN = RECV.m(__cN); <ghost> __rN }`
+            #      `{ let __iN = RECV; let __rN = __iN.m(|..| B); <ghost> __rN }`
             if in_body and overlay_piece and j in self._r15_starts():
                 j = self._emit_closurecall(j, self._r15_starts()[j], out, rw, pathmap, overlay_piece)
                 continue
@@ -713,6 +717,21 @@ class FnRewriter:
                         out('()' + _nl(full), j)
                         j = mc + 1
                         continue
+                    if t.text == 'format' and 'R2a' in rw:
+                        # R2a (opt-in): `format!("..{a:x}..{b}..")` with inline named arguments only
+                        #   ==> `fmt_named("..{a:x}..{b}..", (&a, &b,))`  (env: result is an uninterpreted
+                        #   function of the literal and the argument values)
+                        inner = [x for x in toks[mo + 1:mc] if x.kind not in ('ws', 'comment')]
+                        if len(inner) == 1 and inner[0].kind == 'str' and inner[0].text.startswith('"'):
+                            lit = inner[0].text
+                            names = re.findall(r'(?<!\{)\{([A-Za-z_][A-Za-z0-9_]*)(?::[^{}]*)?\}', lit.replace('{{', '').replace('}}', ''))
+                            holes = re.findall(r'\{[^{}]*\}', lit.replace('{{', '').replace('}}', ''))
+                            if names and len(names) == len(holes):
+                                self.log.append({'rule': 'R2a', 'fn': self.fnkey, 'line': line,
+                                                 'what': 'format!(%s) -> fmt_named(%s, (%s,))' % (lit, lit, ', '.join('&' + n for n in names))})
+                                out('fmt_named(%s, (%s,))' % (lit, ', '.join('&' + n for n in names)) + _nl(full), j)
+                                j = mc + 1
+                                continue
                     if t.text in FMT_MACROS and 'R2' in rw:
                         self.log.append({'rule': 'R2', 'fn': self.fnkey, 'line': line,
                                          'what': '%s!(..) -> fmt_opaque()' % t.text})
@@ -1244,28 +1263,47 @@ class FnRewriter:
             if not (toks[k].kind == 'punct' and toks[k].text == '.'):
                 raise Undecided('%s: closurecall %d: callee is not a method call' % (self.fnkey, n))
             dot = k
-            # receiver: a plain identifier / field path  a.b.c  (no calls: evaluation order is
-            # then trivially unaffected by hoisting the closure literal in front of it)
+            # receiver: a postfix chain of identifiers, fields and argument lists  a.b(..).c  that
+            # contains no closure literal (hoisting the closure literal in front of it then cannot
+            # change behaviour: creating a closure has no effect)
             k = dot - 1
             start = None
-            expect_ident = True
+            expect_operand = True
             while k >= lo:
                 tk = toks[k]
                 if tk.kind in ('ws', 'comment'):
                     k -= 1
                     continue
-                if expect_ident and tk.kind == 'ident':
+                if expect_operand and tk.kind == 'punct' and tk.text == ')':
+                    depth = 0
+                    q = k
+                    while q >= lo:
+                        tq = toks[q]
+                        if tq.kind == 'punct' and tq.text in ')]}':
+                            depth += 1
+                        elif tq.kind == 'punct' and tq.text in '([{':
+                            depth -= 1
+                            if depth == 0:
+                                break
+                        q -= 1
+                    if q < lo or toks[q].text != '(':
+                        break
+                    if any(x.kind == 'punct' and x.text == '|' for x in toks[q:k + 1]):
+                        raise Undecided('%s: closurecall %d: receiver contains a closure' % (self.fnkey, n))
+                    k = q - 1          # the callee name must follow (going left)
+                    continue
+                if expect_operand and tk.kind == 'ident':
                     start = k
-                    expect_ident = False
+                    expect_operand = False
                     k -= 1
                     continue
-                if (not expect_ident) and tk.kind == 'punct' and tk.text == '.':
-                    expect_ident = True
+                if (not expect_operand) and tk.kind == 'punct' and tk.text == '.':
+                    expect_operand = True
                     k -= 1
                     continue
                 break
-            if start is None or expect_ident:
-                raise Undecided('%s: closurecall %d: receiver is not a plain variable or field path' % (self.fnkey, n))
+            if start is None or expect_operand:
+                raise Undecided('%s: closurecall %d: receiver is not a postfix chain of names and calls' % (self.fnkey, n))
             res[start] = (n, dot, name_idx, po, pc, bar_o)
         self._r15_cache = res
         return res
@@ -1276,14 +1314,22 @@ class FnRewriter:
         recv = ''.join(x.text for x in toks[j:dot] if x.kind != 'comment').strip()
         meth = toks[name_idx].text
         self.log.append({'rule': 'R15', 'fn': self.fnkey, 'line': self.sf.line_of(toks[j].start),
-                         'what': '%s.%s(<closure %d>) rewritten to { let __c%d = <closure %d>; let __r%d = %s.%s(__c%d); '
-                                 '<ghost> __r%d }' % (recv, meth, n, n, n, n, recv, meth, n, n)})
-        out('{ let __c%d = ' % n, j)
+                         'what': '%s.%s(<closure %d>) rewritten to { let __i%d = %s; let __r%d = __i%d.%s(<closure %d>); '
+                                 '<ghost> __r%d }' % (recv, meth, n, n, recv, n, n, meth, n, n)})
+        out('{ let __i%d = ' % n, j)
+        self._emit_range(j, dot, out, set(), pathmap, False)
+        via = self.ov.get('closurecall_via', {}).get(n)
+        if via:
+            self.log.append({'rule': 'R15', 'fn': self.fnkey, 'line': self.sf.line_of(toks[j].start),
+                             'what': '__i%d.%s(<closure %d>) called through the overlay wrapper %s(__i%d, <closure %d>)'
+                                     % (n, meth, n, via, n, n)})
+            out('; let __r%d = %s(__i%d, ' % (n, via, n) + _nl(''.join(x.text for x in toks[dot:po + 1])), dot)
+        else:
+            out('; let __r%d = __i%d' % (n, n), dot)
+            self._emit_range(dot, po + 1, out, set(), pathmap, False)
         # the closure literal itself goes through the normal path (R8c header replacement, numbering)
-        self._emit_range(bar_o, pc, out, rw, pathmap, True, overlay_piece)
-        out('; let __r%d = ' % n + _nl(''.join(x.text for x in toks[po + 1:bar_o])), pc)
-        self._emit_range(j, po + 1, out, set(), pathmap, False)
-        out('__c%d); ' % n, pc)
+        self._emit_range(po + 1, pc, out, rw, pathmap, True, overlay_piece)
+        out('); ', pc)
         text, line = self.ov['closurecall'][n]
         overlay_piece('\n' + text, line - 1, 'closurecall%d' % n)
         out(' __r%d }' % n, pc)
